@@ -16,6 +16,32 @@ GOMC_DIR=$PWD bin/gomc-rewrite -out "$B" -tags verif,mcbuild \
 sed "s|^replace golang.org/x/sync => .*|replace golang.org/x/sync => $B/xsync|" go.mc.mod > "$B/go.mod"
 cp go.sum "$B/go.sum"
 go build -tags verif,mcbuild -modfile="$B/go.mod" -overlay "$B/overlay.json" -o "bin/${lc}_mc" ./props/$lc 2> "$B/build.log" || { cat "$B/build.log" >&2; echo "INFRASTRUCTURE ERROR: build of transformed code failed" >&2; exit 2; }
+# Optional free-running -race side pass over the same scenario bodies (props/<id>/racemain.go,
+# build tag !mcbuild): sampling; only a data-race report counts (exit status 66).
+have_race=no
+if [ -f "props/$lc/racemain.go" ] && [ "${1:-}" != "--replay" ]; then
+  go build -race -tags verif -o "bin/${lc}_race" ./props/$lc 2> "$B/race-build.log" || { cat "$B/race-build.log" >&2; echo "INFRASTRUCTURE ERROR: -race build failed" >&2; exit 2; }
+  have_race=yes
+fi
 if [ "${1:-}" = "--build" ]; then exit 0; fi
 if [ "${1:-}" = "--replay" ]; then exec "bin/${lc}_mc" --replay "$2"; fi
-exec "bin/${lc}_mc" "$@"
+run_race() { # $1 = part file
+  GORACE="exitcode=66 halt_on_error=1" VERIF_PART="$1" VERIF_PART_NAME=race-pass "bin/${lc}_race" "${tier}" > "$B/race.log" 2>&1; rc=$?
+  if [ $rc = 66 ]; then
+    head -60 "$B/race.log" >&2
+    printf '{"name":"race-pass","cov":{"race_pass":"DATA RACE reported"},"samples":[],"assumptions":[],"viols":[{"signature":"data-race","detail":"the Go race detector reported a data race in a free-running execution of the scenario bodies (first report in .build/mc/%s/race.log)","replay":{"mode":"race"}}],"known":[],"capped":[],"states":1,"transitions":1,"validated":1,"wall":0}' "$lc" > "$1"
+  elif [ $rc != 0 ]; then cat "$B/race.log" >&2; echo "INFRASTRUCTURE ERROR: race pass failed" >&2; exit 2; fi
+}
+tier="${1:-quick}"
+if [ -n "${VERIF_PART:-}" ]; then
+  # called by a multi-part check: it merges; the race part goes next to the given part file
+  outer="$VERIF_PART"
+  "bin/${lc}_mc" "$@" || exit 2
+  if [ $have_race = yes ]; then run_race "${outer%.json}.race.json"; fi
+  exit 0
+fi
+if [ $have_race = no ]; then exec "bin/${lc}_mc" "$@"; fi
+go build -o bin/vxmerge ./cmd/vxmerge || exit 2
+VERIF_PART="$B/mc.json" VERIF_PART_NAME=controlled "bin/${lc}_mc" "$@" || { echo "INFRASTRUCTURE ERROR: controlled part failed" >&2; exit 2; }
+run_race "$B/race.json"
+exec bin/vxmerge "$id" "$tier" "$B/mc.json" "$B/race.json"
